@@ -1,6 +1,7 @@
 package main
 
 import (
+	"regexp"
 	"fmt"
 	"go/ast"
 	"go/token"
@@ -315,7 +316,13 @@ func (e *Eng) freshResult(resT types.Type, c *ctx) Val {
 
 func (e *Eng) havocAll(st *State) {
 	e.havocAllHeaps(st, nil)
+	old := st.front()
 	st.epoch++
+	if !noFrontier {
+		fr := e.epochFrontier(st)
+		st.assume("(<= " + fr + " " + old + ")")
+		st.frontier = fr
+	}
 }
 
 // callFunc dispatches a call to a statically known function or method.
@@ -750,6 +757,29 @@ func (e *Eng) applyContract(con *Contract, fi *FuncInfo, name string, recv *Val,
 	case con.Extern && con.Effect == "havoc":
 		e.havocAll(c.st)
 	case con.Extern:
+		for _, cb := range con.Callbacks {
+			// the function literal given for this parameter runs zero or more times: everything
+			// its body can assign is forgotten, as for a loop without an invariant; anything
+			// other than a literal is not understood and forgets all memory
+			idx := -1
+			for i, a := range con.Params {
+				if a == cb {
+					idx = i
+				}
+			}
+			if recv != nil {
+				idx--
+			}
+			var lit *ast.FuncLit
+			if x != nil && idx >= 0 && idx < len(x.Args) {
+				lit, _ = ast.Unparen(x.Args[idx]).(*ast.FuncLit)
+			}
+			if lit == nil {
+				e.havocAll(c.st)
+			} else {
+				e.havocStmt(lit.Body, c.st)
+			}
+		}
 		for _, w := range con.Writes {
 			if v, ok := env[w]; ok {
 				if con.SkipTag != "" {
@@ -771,9 +801,62 @@ func (e *Eng) applyContract(con *Contract, fi *FuncInfo, name string, recv *Val,
 	for _, g := range con.Ghosts {
 		local[g.Name] = true
 	}
+	// likewise a clause about a local variable of the callee's body (e.g. the node it
+	// built before wrapping it) is checked for the callee and says nothing to a caller
+	if fi != nil && fi.Decl != nil && fi.Decl.Body != nil {
+		params := map[string]bool{}
+		for _, fl := range []*ast.FieldList{fi.Decl.Recv, fi.Decl.Type.Params, fi.Decl.Type.Results} {
+			if fl == nil {
+				continue
+			}
+			for _, f := range fl.List {
+				for _, n := range f.Names {
+					params[n.Name] = true
+				}
+			}
+		}
+		ast.Inspect(fi.Decl.Body, func(n ast.Node) bool {
+			switch n := n.(type) {
+			case *ast.FuncLit:
+				return false
+			case *ast.AssignStmt:
+				if n.Tok == token.DEFINE {
+					for _, l := range n.Lhs {
+						if id, ok := l.(*ast.Ident); ok && !params[id.Name] && id.Name != "_" {
+							local[id.Name] = true
+						}
+					}
+				}
+			case *ast.ValueSpec:
+				for _, id := range n.Names {
+					if !params[id.Name] && id.Name != "_" {
+						local[id.Name] = true
+					}
+				}
+			case *ast.RangeStmt:
+				if n.Tok == token.DEFINE {
+					for _, l := range []ast.Expr{n.Key, n.Value} {
+						if id, ok := l.(*ast.Ident); ok && !params[id.Name] && id.Name != "_" {
+							local[id.Name] = true
+						}
+					}
+				}
+			}
+			return true
+		})
+	}
 	mentionsLocal := func(src string) bool {
+		bound := map[string]bool{}
+		for _, m := range rxBinder.FindAllStringSubmatch(src, -1) {
+			for _, n := range strings.Split(m[2], ",") {
+				bound[strings.TrimSpace(n)] = true
+			}
+		}
 		for g := range local {
-			if containsWord(src, g) {
+			if bound[g] {
+				continue // a quantified variable that happens to share its name with a local
+			}
+			if containsWord(src, g) || mentionsVar(src, g) {
 				return true
 			}
 		}
@@ -1303,3 +1386,26 @@ func (e *Eng) copyBuiltin(dst, src Val, c *ctx, x *ast.CallExpr) Val {
 	}
 	return Val{K: KInt, T: n, GoT: intT}
 }
+
+// mentionsVar reports whether src uses the identifier name as a variable (also as the
+// operand of a selector, index or call: "name.f", "name[i]"), but not as a field ("x.name").
+func mentionsVar(src, name string) bool {
+	isWord := func(b byte) bool {
+		return b == '_' || b >= '0' && b <= '9' || b >= 'a' && b <= 'z' || b >= 'A' && b <= 'Z'
+	}
+	for i := 0; ; {
+		j := strings.Index(src[i:], name)
+		if j < 0 {
+			return false
+		}
+		j += i
+		before := j == 0 || !(isWord(src[j-1]) || src[j-1] == '.')
+		after := j+len(name) >= len(src) || !isWord(src[j+len(name)])
+		if before && after {
+			return true
+		}
+		i = j + len(name)
+	}
+}
+
+var rxBinder = regexp.MustCompile(`\b(forall|exists)\s+([A-Za-z_][\w]*(?:\s*,\s*[A-Za-z_][\w]*)*)\s+[^:]+?::`)
